@@ -384,34 +384,60 @@ func (c *Ctx) ruleR13b(rule string) {
 		c.R.Violation(rule, "StaticCheck callback target", c.name(g), c.P.Pos(g.Pos()), "the callback does not run StaticCheck on the visited node itself")
 		return
 	}
-	for _, r := range ssax.Returns(g) {
-		k, isC := ssax.ConstBool(r.Results[0])
-		if !isC {
-			c.R.Violation(rule, "StaticCheck callback result", c.name(g), c.P.InstrPos(r), "callback returns a computed value; expected true exactly on error")
-			good = false
-			continue
-		}
-		onErr := false
-		for _, cd := range ssax.DominatingConds(r.Block()) {
-			if x, nilIfTrue, isNT := nilTest(cd.Val); isNT && x == ssa.Value(sc) && cd.Truth != nilIfTrue {
-				onErr = true
-			}
-		}
-		stored := false
-		for _, in := range r.Block().Instrs {
+	// path-sensitive: on every path, the callback returns true exactly when the checker returned an error, and that
+	// error has been stored on the path
+	var storeBlocks []*ssa.BasicBlock
+	for _, b := range g.Blocks {
+		for _, in := range b.Instrs {
 			if st, ok := in.(*ssa.Store); ok && st.Addr == ssa.Value(fv) && st.Val == ssa.Value(sc) {
-				stored = true
+				storeBlocks = append(storeBlocks, b)
 			}
-		}
-		if k && !(onErr && stored) {
-			c.R.Violation(rule, "StaticCheck abort without error", c.name(g), c.P.InstrPos(r), "the callback aborts the walk (returns true) on a path where no checker error was stored: nodes are skipped, or the error is not reported")
-			good = false
-		}
-		if !k && onErr {
-			c.R.Violation(rule, "StaticCheck continues after error", c.name(g), c.P.InstrPos(r), "the callback continues the walk after a checker returned an error: not 'aborts with the first error'")
-			good = false
 		}
 	}
+	reported := map[string]bool{}
+	walkPaths(g, isReturn, func(p *pathState, in ssa.Instruction) {
+		r := in.(*ssa.Return)
+		k, isC := ssax.ConstBool(p.resolve(r.Results[0]))
+		if !isC {
+			if !reported["computed"] {
+				reported["computed"] = true
+				good = false
+				c.R.Violation(rule, "StaticCheck callback result", c.name(g), c.P.InstrPos(r), "callback returns a computed value; expected true exactly on error")
+			}
+			return
+		}
+		// was the checker called on this path, and what do we know about its error?
+		called := false
+		stored := false
+		for _, b := range p.trace {
+			if b == sc.Block() {
+				called = true
+			}
+			for _, sb := range storeBlocks {
+				if b == sb {
+					stored = true
+				}
+			}
+		}
+		errState := nsNil
+		if called {
+			errState = p.eval(sc)
+		}
+		switch {
+		case k && !(errState == nsNonNil && stored):
+			if !reported["abort"] {
+				reported["abort"] = true
+				good = false
+				c.R.Violation(rule, "StaticCheck abort without error", c.name(g), c.P.InstrPos(r), "the callback aborts the walk (returns true) on a path where no checker error was stored: nodes are skipped, or the error is not reported")
+			}
+		case !k && errState != nsNil:
+			if !reported["continue"] {
+				reported["continue"] = true
+				good = false
+				c.R.Violation(rule, "StaticCheck continues after error", c.name(g), c.P.InstrPos(r), "the callback continues the walk (returns false) on a path where the checker may have returned an error: later nodes are checked against a failed child, and a later error replaces the first")
+			}
+		}
+	})
 	if good {
 		c.R.Hold(rule, "parsley.StaticCheck", "Walk(node, g); g stores the error and returns true exactly on error")
 	}
